@@ -22,6 +22,14 @@ Streams (all through the implementation, the property oracles and the extracted 
               of kinds, every nesting shape -- in four filler layouts, closers without opener, really written JSX / template
               values (items={[1,2]}, on={fn(a,b)}, v=f(x)[0].y), then random values nested up to depth 6 in random tags for
               every generated abbreviation (c11_unquoted.py; two sub-classes fail on the unchanged library and are OFF)
+  option-values  the VALUES and FORMS of the options and of the call (c11_options.py): `lookAhead` given as every kind of
+              value a caller may pass for a flag (False 0 None '' 0.0 [] {} = off; True 1 2 -1 1.0 0.5 non-empty strings, lists,
+              dicts = on; key absent = the documented default, on) in every look-ahead sensitive situation: the caret directly
+              before every short run of quotes / closers / other characters (consistency, both types, with and without a prefix),
+              the round trip at the end of generated abbreviations (every value) and before an auto-closed tail (every ON value:
+              round trip; every OFF value: the end stays at the caret); options written with defaults left out / written out,
+              `prefix` present but empty ('' / None); unknown `type` strings (consistency only); default options in every form of
+              the call (options omitted / None / {}, line only, keywords, emmet.extract)
   is_html     is_html / consume_quoted on tag-like texts (correspondence of the tag heuristic only), lower-case
               and mixed-case spellings, tags with rich unquoted values (incl. brackets that are not properly nested)
 """
@@ -31,13 +39,17 @@ import itertools
 from common import enc_str
 import extract_util as U
 import c11_unquoted as V
+import c11_options as O
 
 TYPES = ('markup', 'stylesheet')
 
 
 def opts_key(o):
-    o = U.full_opts(o)
-    return (o['type'], bool(o['lookAhead']), o['prefix'])
+    f = U.full_opts(o)
+    k = (f['type'], bool(f['lookAhead']), f['prefix'])
+    if not isinstance(f['lookAhead'], bool):       # the flag given as another kind of value: part of the input
+        k += ('lookAhead=%r' % (f['lookAhead'],),)
+    return k
 
 
 # ------------------------------------------------------------------ consistency stream
@@ -104,7 +116,7 @@ def gen_consistency(ctx):
     return cases
 
 
-def check_consistency(ctx, cases, model, label):
+def check_consistency(ctx, cases, model, label, enc=U.enc_case):
     impl = [U.impl_extract(l, p, o) for l, p, o in cases]
     for (line, pos, o), r in zip(cases, impl):
         ctx.count_eval()
@@ -127,7 +139,11 @@ def check_consistency(ctx, cases, model, label):
         if pos is None or pos < 0 or pos > len(line):
             ctx.cover(label + ':position-outside-line')
         ctx.cover(label + ':type:' + U.full_opts(o)['type'])
-    correspond(ctx, [(U.enc_case(l, p, o), (l, p, o)) for l, p, o in cases], impl, model, label,
+    encs = [enc(l, p, o) for l, p, o in cases]
+    sel = [i for i, e in enumerate(encs) if e is not None]       # None: settings the model has no notion of
+    if len(sel) != len(cases):
+        ctx.cover(label + ':not-through-the-model', len(cases) - len(sel))
+    correspond(ctx, [(encs[i], cases[i]) for i in sel], [impl[i] for i in sel], model, label,
                lambda c, r: U.consistency_oracle(c[0], c[1], c[2], r))
     return impl
 
@@ -372,7 +388,7 @@ def rt_failure(ctx, rt, r):
     return key
 
 
-def check_roundtrip(ctx, cases, model, label='roundtrip'):
+def check_roundtrip(ctx, cases, model, label='roundtrip', enc=U.enc_case):
     impl = [U.impl_extract(rt.line, rt.pos, rt.opts) for rt, _ in cases]
     keys = {}
     for (rt, wild), r in zip(cases, impl):
@@ -400,7 +416,7 @@ def check_roundtrip(ctx, cases, model, label='roundtrip'):
         if not bad:
             return None
         return (keys.get(id(rt)), bad)
-    correspond(ctx, [(U.enc_case(rt.line, rt.pos, rt.opts), rt) for rt, _ in cases], impl, model, label, oracle)
+    correspond(ctx, [(enc(rt.line, rt.pos, rt.opts), rt) for rt, _ in cases], impl, model, label, oracle)
 
 
 # ------------------------------------------------------------------ is_html stream
@@ -489,6 +505,55 @@ def check_html(ctx, texts, model):
     ctx.cov['correspondence']['consume_quoted'] = {'cases': len(qt), 'disagreements': dis}
 
 
+# ------------------------------------------------------------------ option values and call forms
+OPTION_TAIL_LEN = {'quick': (1, 2), 'thorough': (2, 3)}     # (every value, rotating values): length of the run right of the caret
+OPTION_RT_PER_VALUE = {'quick': 60, 'thorough': 400}
+OPTION_CALL_LINES = {'quick': 150, 'thorough': 1500}
+
+
+def gen_option_values(ctx, rt_cases):
+    """-> (consistency cases, round-trip cases, call-form cases); see c11_options.py"""
+    rng = ctx.rng
+    tier = 'quick' if ctx.tier == 'quick' else 'thorough'
+    ex, rot = OPTION_TAIL_LEN[tier]
+    cons = O.look_ahead_value_cases(rng, ex, rot)
+    lines = O.sensitive_lines(rot)
+    cons += O.unknown_type_cases(rng, lines)
+    rts, cons2 = O.rt_value_cases(rng, rt_cases, OPTION_RT_PER_VALUE[tier])
+    cons += cons2
+    for line, pos, o in cons + [(rt.line, rt.pos, rt.opts) for rt, _ in rts]:
+        ctx.cover('option-values:lookAhead=%s' % O.vname(o['lookAhead'] if 'lookAhead' in o else O.ABSENT))
+        ctx.cover('option-values:look-ahead-%s:caret-%s' % (
+            'on' if O.look_ahead_requested(o) else 'off',
+            'before-quote-or-closer' if line[U.clamp(line, pos):][:1] in tuple('"\')]}') else 'elsewhere'))
+        ctx.cover('option-values:type-%s' % ('absent' if 'type' not in o else 'written' if o['type'] in TYPES else 'unknown-string'))
+        ctx.cover('option-values:prefix-%s' % ('absent' if 'prefix' not in o else 'none' if o['prefix'] is None else
+                                               'empty-string' if o['prefix'] == '' else 'given'))
+    # default options in every form of the call, on sensitive lines and on embedded abbreviations
+    some = rng.sample(lines, min(len(lines), OPTION_CALL_LINES[tier]))
+    some += [(rt.line, rt.pos) for rt, _ in rng.sample(rt_cases, min(len(rt_cases), OPTION_CALL_LINES[tier]))]
+    calls = O.call_form_cases(rng, some)
+    return cons, rts, calls
+
+
+def check_call_forms(ctx, calls, model):
+    """default options: the result of every form of the call satisfies the consistency clauses (look-ahead on, markup,
+    no prefix) and is the model's result for the default settings"""
+    impl = [O.impl_call(l, p, f) for l, p, f in calls]
+    for (line, pos, form), r in zip(calls, impl):
+        ctx.count_eval()
+        ctx.cover('call-forms:' + form)
+        bad = U.consistency_oracle(line, pos, {}, r)
+        if bad:
+            ctx.property_failure('call-form:%s|%r|%r' % (form, line, pos),
+                                 'extract called as %s on (%r, %r), default options: %s' % (form, line, pos, bad),
+                                 {'stream': 'call-form', 'line': line, 'pos': pos, 'form': form, 'impl': repr(r), 'why': bad})
+        if r is not None and r[0] != 'internal':
+            ctx.nontrivial(('f', line, pos, form))
+    correspond(ctx, [(U.enc_case(l, p, {}), (l, p, f)) for l, p, f in calls], impl, model, 'call-forms',
+               lambda c, r: U.consistency_oracle(c[0], c[1], {}, r))
+
+
 # ------------------------------------------------------------------ corpus
 def corpus_cases(ctx):
     cons, rts = [], []
@@ -544,6 +609,16 @@ def run(ctx):
         'NOT properly nested (opener without closer, crossing pairs) are %s (c11_unquoted.UNQ_NOT_PROPERLY_NESTED), values in '
         'which a / is followed by letters, digits, - or : only up to the end (href=/about) are %s '
         '(c11_unquoted.UNQ_SLASH_BEFORE_NAME_END); '
+        'option values and call forms (the docstring of extract_abbreviation documents lookAhead: bool, default true; a flag '
+        'given as another kind of value counts by its Python truth value, fixed in c11_options.py): lookAhead as each of %d OFF '
+        'values %r, %d ON values %r and ABSENT x markup/stylesheet at the caret directly before EVERY run of length <= %d over %r '
+        '(rotating values up to length %d) after %d left texts that leave a bracket or quote open, a third of them with a prefix '
+        'taken from the line; the same values in the round trip: %d embedded generated abbreviations per value with the caret at '
+        'the end (every value) and before an auto-closed tail (every ON value must give the whole abbreviation, every OFF value '
+        'must leave the end at the caret); the other options written in every form (type absent / written, prefix absent / \'\' / '
+        'None); %d type strings outside markup/stylesheet %r (consistency part only; they go through the model as well); default '
+        'options in %d forms of the call %r on %d sensitive lines and %d embedded abbreviations; values that are not JSON '
+        'values (objects with their own __bool__) and non-integer positions are NOT explored; '
         'a case is non-trivial when extract returns a result (consistency) or is '
         'an embedded abbreviation (round trip); distinct by (line, position, options)'
     ) % (3 if quick else 4, len(U.EX_ALPHA), ''.join(U.EX_ALPHA),
@@ -557,7 +632,12 @@ def run(ctx):
          VALUE_BRACKET_PAIRS['quick' if quick else 'thorough'], len(V.bracket_words(VALUE_BRACKET_PAIRS['quick' if quick else 'thorough'])),
          len(V.LAYOUTS), len(V.REALISTIC_VALUES), VALUE_RT_PER_ABBR['quick' if quick else 'thorough'],
          'explored too' if V.UNQ_NOT_PROPERLY_NESTED else 'NOT explored (they fail on the unchanged library)',
-         'explored too' if V.UNQ_SLASH_BEFORE_NAME_END else 'NOT explored (they fail on the unchanged library)')
+         'explored too' if V.UNQ_SLASH_BEFORE_NAME_END else 'NOT explored (they fail on the unchanged library)',
+         len(O.LOOK_AHEAD_OFF), O.LOOK_AHEAD_OFF, len(O.LOOK_AHEAD_ON), O.LOOK_AHEAD_ON,
+         OPTION_TAIL_LEN['quick' if quick else 'thorough'][0], ''.join(U.LA_ALPHA), OPTION_TAIL_LEN['quick' if quick else 'thorough'][1],
+         len(U.LA_LEFTS), OPTION_RT_PER_VALUE['quick' if quick else 'thorough'], len(O.UNKNOWN_TYPES), O.UNKNOWN_TYPES,
+         len(O.CALL_FORMS), O.CALL_FORMS, OPTION_CALL_LINES['quick' if quick else 'thorough'],
+         OPTION_CALL_LINES['quick' if quick else 'thorough'])
     model = ctx.model('extract') if ok else None
     # corpus first
     cons, rts = corpus_cases(ctx)
@@ -589,6 +669,13 @@ def run(ctx):
     for rt, _ in vcases[len(vcases) // 2:len(vcases) // 2 + 1] + vcases[-1:]:
         ctx.sample({'line': rt.line, 'pos': rt.pos, 'opts': rt.opts,
                     'impl': repr(U.impl_extract(rt.line, rt.pos, rt.opts))})
+    # the values and forms of the options and of the call
+    ocons, orts, ocalls = gen_option_values(ctx, cases)
+    check_consistency(ctx, ocons, model, 'option-values', enc=O.enc_case)
+    check_roundtrip(ctx, orts, model, 'option-values-roundtrip', enc=O.enc_case)
+    check_call_forms(ctx, ocalls, model)
+    for c in ocons[len(ocons) // 7:len(ocons) // 7 + 1] + ocons[-1:]:
+        ctx.sample({'line': c[0], 'pos': c[1], 'opts': c[2], 'impl': repr(U.impl_extract(c[0], c[1], c[2]))})
     # consistency
     cc = gen_consistency(ctx)
     impl = check_consistency(ctx, cc, model, 'consistency')
@@ -643,6 +730,12 @@ def replay(ctx, obj):
         print('round trip %r in %r at %d %r' % (rt.abbr, rt.line, rt.pos, rt.opts))
         bad = replay_call(rt.line, rt.pos, rt.opts,
                           lambda r: U.consistency_oracle(rt.line, rt.pos, rt.opts, r) or U.roundtrip_oracle(rt, r))
+        return 1 if bad else 0
+    if rp.get('stream') == 'call-form':
+        line, pos, form = rp['line'], rp.get('pos'), rp['form']
+        r = O.impl_call(line, pos, form)
+        bad = U.consistency_oracle(line, pos, {}, r)
+        print('extract called as %s on (%r, %r), default options -> %r : %s' % (form, line, pos, r, bad or 'property holds'))
         return 1 if bad else 0
     if rp.get('stream') == 'consistency' or 'line' in rp:
         line, pos, o = rp['line'], rp.get('pos'), rp.get('opts', {})
